@@ -268,7 +268,40 @@ func havoc(fr *frame, T types.Type, addr *value, path string, maxStr int) {
 		for k := range arr {
 			havoc(fr, t.Elem(), &arr[k], fmt.Sprintf("%s[%d]", path, k), maxStr)
 		}
+	case *types.Slice:
+		// slices of scalars/strings/structs of those: arbitrary length 0..2
+		if !havocable(t.Elem()) {
+			return
+		}
+		bound := maxStr
+		if bound > 2 {
+			bound = 2
+		}
+		n := ps.choice(path+".len", bound+1)
+		sl := make([]value, n)
+		for k := range sl {
+			sl[k] = zero(t.Elem())
+			havoc(fr, t.Elem(), &sl[k], fmt.Sprintf("%s[%d]", path, k), maxStr)
+		}
+		fr.i.setCell(addr, sl)
 	}
+}
+
+func havocable(T types.Type) bool {
+	switch t := T.Underlying().(type) {
+	case *types.Basic:
+		return t.Info()&(types.IsBoolean|types.IsInteger|types.IsString) != 0
+	case *types.Struct:
+		for k := 0; k < t.NumFields(); k++ {
+			if !havocable(t.Field(k).Type()) {
+				return false
+			}
+		}
+		return true
+	case *types.Array:
+		return havocable(t.Elem())
+	}
+	return false
 }
 
 // vSetupOnce(key, f): run f once per worker, outside the undo journal, so
